@@ -134,3 +134,48 @@ package mask
 //@     preserves Plugin, Mask, []bool, int, []int
 //@   callee MutateToString(s) (x)
 //@     preserves Plugin, Mask, []bool, int, []int
+
+// Do, fast path (a plugin-level process_fields list and no mask-specific lists): every
+// listed field that exists in the event is traversed (masked), whatever the outcome
+// for the fields before it - the traversal is what hides the secret, its result only
+// feeds the "mask applied" mark.  Ghost counters: found fields / traversals.
+
+//@ func (*Plugin).Do
+//@   option allow-exit yes
+//@   ghost nfound int = 0
+//@   ghost ntrav int = 0
+//@   requires event != nil
+//@   requires len(p.hasMasksIgnoreFields) == len(p.config.Masks) && len(p.hasMasksProcessFields) == len(p.config.Masks) && len(p.maskApplyCount) == len(p.config.Masks)
+//@   loop 1 invariant rangeindex < len(p.config.Masks) && len(p.hasMasksIgnoreFields) == len(p.config.Masks) && len(p.hasMasksProcessFields) == len(p.config.Masks) && len(p.maskApplyCount) == len(p.config.Masks)
+//@   loop 2 invariant ntrav == nfound && len(p.hasMasksIgnoreFields) == len(p.config.Masks) && len(p.hasMasksProcessFields) == len(p.config.Masks) && len(p.maskApplyCount) == len(p.config.Masks)
+//@   loop 4 invariant rangeindex#4 < len(p.config.Masks) && len(p.maskApplyCount) == len(p.config.Masks)
+//@   callee Dig(path) (n)
+//@     pure
+//@     set nfound := ite(n != nil, nfound + 1, nfound)
+//@   callee traverseTree(e, n, fm) (r)
+//@     preserves Plugin, Config, []Mask
+//@     set ntrav := ntrav + 1
+//@   callee Check(d) (r)
+//@     pure
+//@   callee NewEventData(r) (d)
+//@     pure
+//@   callee AddFieldNoAlloc(r, n) (x)
+//@     pure
+//@   callee MutateToString(s)
+//@     pure
+//@   callee AsString() (s)
+//@     pure
+//@   callee Clone(s) (r)
+//@     pure
+//@   callee WithLabelValues(l) (c)
+//@     pure
+//@   callee Inc()
+//@     pure
+//@   callee EncodeToString() (s)
+//@     pure
+//@   callee Write(f)
+//@     pure
+//@   callee String(k, v) (f)
+//@     pure
+//@   callee applyMaskMetric(m, e, d)
+//@     preserves Plugin, Config, []Mask
